@@ -28,13 +28,13 @@ F16_WHAT = ("MFPCA(covariance) normalises its eigenfunctions with the UNCENTRED 
             "the scores are not centred) the eigenfunctions are not orthonormal in the product space")
 
 
-def component(rng, n, kind, scale, basis_coefs):
+def component(rng, n, kind, scale, basis_coefs, noise=0.02):
     m = int(rng.integers(9, 15))
     x = fd.grid(rng, m, kind)
     u = (x - x[0]) / (x[-1] - x[0])
     funs = np.array([np.sin(np.pi * u), np.cos(np.pi * u), u * (1 - u) * 4, np.sin(2 * np.pi * u)])
     load = np.round(rng.normal(size=(basis_coefs.shape[1], 4)) * 8) / 8
-    X = scale * (basis_coefs @ load @ funs) + 0.02 * rng.normal(size=(n, m)) + scale * 0.5 * u
+    X = scale * (basis_coefs @ load @ funs) + noise * scale * rng.normal(size=(n, m)) + scale * 0.5 * u
     return fd.dense(x, X), x
 
 
@@ -71,9 +71,13 @@ def run(rep, props, replay=None):
         P = 1 + i % 3
         n = int(rng.integers(8, 15 if quick else 31))
         latent = np.round(rng.normal(size=(n, 3)) * np.array([2.0, 1.0, 0.5]) * 8) / 8
+        many = i % 6 in (2, 4)          # many observations, rich variation: (nearly) all components can be asked for
+        if many:
+            n = int(rng.integers(36, 48))
+            latent = np.round(rng.normal(size=(n, 6)) * np.array([2.0, 1.5, 1.0, 0.8, 0.6, 0.4]) * 8) / 8
         comps, grids = [], []
         for p in range(P):
-            d, x = component(rng, n, kinds[(i + p) % len(kinds)], float([1.0, 5.0, 0.2][p % 3]), latent)
+            d, x = component(rng, n, kinds[(i + p) % len(kinds)], float([1.0, 5.0, 0.2][p % 3]), latent, noise=0.3 if many else 0.02)
             comps.append(d); grids.append(x)
         data = fd.multivariate(comps)
         exp_kind = ["UFPCA", "PSplines"][i % 2]
@@ -83,8 +87,12 @@ def run(rep, props, replay=None):
             expansions = [{"method": "PSplines", "n_segments": int(rng.integers(2, 4)), "degree": int(rng.integers(2, 4)),
                            "penalty": float(rng.choice([0.5, 2.0]))} for _ in range(P)]
         normalize = bool(i % 4 >= 2)
+        m_est = sum((e["n_components"] if exp_kind == "UFPCA" else e["n_segments"] + e["degree"]) for e in expansions)
+        k_fit = 2 if P == 1 else min(4, 2 * P)
+        if many:
+            k_fit = max(k_fit, min(m_est, n - 2))       # (nearly) every component: n_components ranges up to the sum of the sizes
         try:
-            full = fit_mfpca(data, expansions, 2 if P == 1 else min(4, 2 * P), normalize)
+            full = fit_mfpca(data, expansions, k_fit, normalize)
             S, Gs, nus, cs, As = pieces(full)
         except ModuleNotFoundError as e:
             rep.notes.append(f"skipped (environment): {e}")
